@@ -106,7 +106,7 @@ From MoPep Require Import Model.SpecFusion Model.SpecAS Model.SpecCirc Extract.A
 Definition ag_ext_reply (g : graph) (real : list seq) (uns mis : list seq) (nspec : nat) : val :=
   VL [ofB (topo g); VZ (Z.of_nat (length real)); VZ (Z.of_nat nspec); ofSS (ag_take 6 uns); ofSS (ag_take 6 mis)].
 
-(* fusion graph.  [xd; bp; mid; mvars; xa; bp'; g; starts; off] -> [topo; #real strings; #permitted strings;
+(* fusion graph.  [xd; bp; mid; mvars; xa; bp'; g; starts; off] -> [topo; #real strings; #records of the backbone;
    real strings not spelled by the fused backbone with any compatible record set; obliged strings missing] *)
 Definition api_ag_ext_fusion (v : val) : val :=
   let xd := cv_input (argn 0 v) in let bp := getZ (argn 1 v) in
@@ -119,7 +119,7 @@ Definition api_ag_ext_fusion (v : val) : val :=
   let ys := fuse_gen_strict xd bp mid mv xa bp' in
   let nothing := (in_coding xd && negb (in_coding ys)) || existsb (fun p => (p - 3 <? bp) && (bp <=? p + 6)) (in_sec xd) in
   let obl := if nothing then [] else ext_obliged off ys ([] :: filter (one_partner bp) (must_haps ys)) in
-  ag_ext_reply g real (ext_unsound off [y] real) (ext_missing obl real) (length (ext_strings off y)).
+  ag_ext_reply g real (ext_unsound_fast off [y] real) (ext_missing obl real) (length (in_vars y)).
 
 (* fusion graph with the breakpoints moved by (d1, d2): signature of C02-fusion-junction-indel.
    [xd; bp; xa; bp'; g; starts; off; strings] -> for each string: spelled by a fused backbone whose breakpoints
@@ -144,7 +144,7 @@ Definition api_ag_ext_as (v : val) : val :=
              flat_map (fun r => if as_must_ok x r
                                 then let y := as_apply_gen false x r in ext_obliged off y ([] :: must_haps y)
                                 else []) rs in
-  ag_ext_reply g real (ext_unsound off ys real) (ext_missing obl real) (length (flat_map (ext_strings off) ys)).
+  ag_ext_reply g real (ext_unsound_fast off ys real) (ext_missing obl real) (length ys).
 
 (* circRNA graph.  [c; g; starts; off; first] : off bases cut from the head of the four-copy backbone *)
 Definition api_ag_ext_circ (v : val) : val :=
@@ -156,14 +156,14 @@ Definition api_ag_ext_circ (v : val) : val :=
   let t := circ_turn (c_gene c) (c_frags c) in
   let obl := map (fun h => skipn off (circ_hap c h))
                  ([] :: filter circ_must_hap (haplotypes true (circ_vars false c))) in
-  ag_ext_reply g real (ext_unsound off [y] real) (ext_missing obl real) (length (ext_strings off y)).
+  ag_ext_reply g real (ext_unsound_fast off [y] real) (ext_missing obl real) (length (in_vars y)).
 
 (* translation stage without record semantics.  [tvg; starts; pvg; starts; n ids] -> [topo; #t; #p; extra; missing] *)
 Definition api_ag_translate_plain (v : val) : val :=
   let tg := ag_graph (argn 0 v) in
   let pg := ag_graph (argn 2 v) in
   let n := Z.to_nat (getZ (argn 4 v)) in
-  let tws := ag_lang_of tg (ag_nats (argn 1 v)) in
+  let tws := map (fun t => (translate_all (fst t), snd t)) (ag_lang_of tg (ag_nats (argn 1 v))) in
   let pws := ag_lang_of pg (ag_nats (argn 3 v)) in
   VL [ofB (topo tg && topo pg); VZ (Z.of_nat (length tws)); VZ (Z.of_nat (length pws));
-      VL (map ag_word (ag_take 6 (tr_extra n tws pws))); VL (map ag_word (ag_take 6 (tr_missing n tws pws)))].
+      VL (map ag_word (ag_take 6 (tr_extra_pre n tws pws))); VL (map ag_word (ag_take 6 (tr_missing_pre n tws pws)))].
